@@ -3,6 +3,7 @@ use crate::common::*;
 use crate::driver::{self, CheckSpec};
 use crate::e1;
 use crate::e2;
+use crate::e3;
 
 const REAL: &[&str] = &[
     "fidget-core (context, compiler, VM evaluators, shape wrappers, render handle)",
@@ -29,8 +30,8 @@ pub fn all() -> Vec<CheckSpec> {
         CheckSpec {
             prop: "C06",
             engine: "E1-par-sim",
-            runs_quick: 6_000,
-            runs_thorough: 400_000,
+            runs_quick: 50000,
+            runs_thorough: 4000000,
             run: e1::run_c06,
             rule: "one run = one drawn 2-D workload (CSG shape, image size, tile list, transform, backend, pixel-perfect flag) rendered by the real pixel::render under the no-pool path and two simulated pools (drawn size, split tree, item interleaving); every pixel compared with Context::eval. distinct_nontrivial = number of distinct schedule signatures (hash of pool size, split tree, item execution order) among pool executions with >=2 segments, i.e. where some tile was rendered by a worker whose evaluator/storage/cache state came from a different predecessor than in the sequential order",
             assumptions: &[
@@ -45,8 +46,8 @@ pub fn all() -> Vec<CheckSpec> {
         CheckSpec {
             prop: "C07",
             engine: "E1-par-sim",
-            runs_quick: 2_500,
-            runs_thorough: 150_000,
+            runs_quick: 40000,
+            runs_thorough: 4000000,
             run: e1::run_c07,
             rule: "one run = one drawn 3-D workload (CSG solid, grid w*h*d, tile list, 4x4 transform, backend) rendered by the real voxel::render under the no-pool path and two simulated pools; every column compared with a brute-force heightmap from Context::eval and surface normals with an f64 dual gradient. distinct_nontrivial = distinct schedule signatures among pool executions with >=2 segments",
             assumptions: &[
@@ -61,8 +62,8 @@ pub fn all() -> Vec<CheckSpec> {
         CheckSpec {
             prop: "C09",
             engine: "E1-par-sim",
-            runs_quick: 5_000,
-            runs_thorough: 300_000,
+            runs_quick: 30000,
+            runs_thorough: 3000000,
             run: e1::run_c09,
             rule: "one run = one drawn workload (2-D render, 3-D render or octree mesh) executed once sequentially, 2-3 times on simulated pools (size 1..=16, drawn split tree, item interleaving, stop-flag visibility) and 3 times with a drawn cancel instant (before the call, before executor item j, before poll j, never; pool and no-pool). Results must equal the sequential one bit for bit; cancel clauses as in DESIGN 5/C09. distinct_nontrivial = distinct schedule signatures (pool size, split tree, execution order, stop visibility, cancel position) among executions with >=2 segments or a fired cancel",
             assumptions: &[
@@ -77,8 +78,8 @@ pub fn all() -> Vec<CheckSpec> {
         CheckSpec {
             prop: "C10",
             engine: "E2-reuse-history",
-            runs_quick: 20_000,
-            runs_thorough: 1_500_000,
+            runs_quick: 12000,
+            runs_thorough: 1200000,
             run: e2::run_c10,
             rule: "one run = one seeded history (10-60 operations, 1-3 logical workers, 2-5 random multi-output functions over all opcodes, one backend of VM<3>/VM<8>/VM<255>/JIT) of {build, point/interval/float-slice/grad-slice evaluation with the worker's kept evaluator and a tape built into fresh or recycled storage, simplify with kept workspace and recycled function storage, cross-budget simplify, recycle, clone handle, hand storage to another worker, re-evaluate a tape held across other operations, RenderHandle episode}; after every operation the result is compared with the same call on fresh objects. distinct_nontrivial = number of distinct history signatures (hash of the whole operation/provenance/result log) among runs in which at least one reuse fault kind fired",
             assumptions: &[
@@ -93,13 +94,45 @@ pub fn all() -> Vec<CheckSpec> {
         CheckSpec {
             prop: "C04",
             engine: "E2-reuse-history",
-            runs_quick: 20_000,
-            runs_thorough: 1_500_000,
+            runs_quick: 10000,
+            runs_thorough: 1000000,
             run: e2::run_c04,
             rule: "same history engine as C10 weighted towards simplification chains (depth <= 6): traces come from VM/JIT point and interval evaluators run with reused evaluator objects, children are produced with reused workspaces, recycled storage, other register budgets and through RenderHandle's trace-keyed cache; after every simplification parent and child are compared bit for bit at the traced point or at 6 points of the traced box under point, float-slice and grad-slice evaluation with fresh evaluators. distinct_nontrivial = distinct history signatures among runs with at least one reuse fault kind",
             assumptions: &[
                 "the for-all-programs part is sampled by the random DAG generator; the simulator's contribution is the history",
                 "interval evaluation of degenerate sub-boxes is not compared (the statement speaks about points of the box)",
+            ],
+            real_components: REAL,
+            stub_components: STUB,
+            absent_faults: ABSENT,
+        },
+        CheckSpec {
+            prop: "C14",
+            engine: "E3-ident-sim",
+            runs_quick: 30000,
+            runs_thorough: 3500000,
+            run: e3::run_c14,
+            rule: "one run = one fresh OS thread whose HashMap keys and Var::new() ids come from the seeded getrandom seam; a drawn expression over a subset of {X,Y,Z} and 0-40 variables met in a drawn traversal order, values supplied in a drawn order with extras and (separately) one missing, optional affine/projective transform, backend VM/JIT/VM<3>; point (all entry points), interval, float-slice (fixed values and per-sample arrays), grad-slice and post-simplification evaluation compared with Context::eval on an explicit HashMap<Var,f32>. distinct_nontrivial = number of distinct variable-to-slot assignments (hash of the (variable, slot) pairs the compiler produced) among runs with >= 2 variables",
+            assumptions: &[
+                "values agree to 1e-4 relative (NaN matches NaN): the property is about binding, variable values are separated by 3.7 so a slot mix-up cannot hide in the tolerance",
+                "derivative lanes are compared with an f64 dual evaluation only where every min/max/abs decision has margin > 1e-3",
+                "interval enclosure is checked with 1e-3 relative slack (C03 allows a few ulps)",
+            ],
+            real_components: REAL,
+            stub_components: STUB,
+            absent_faults: ABSENT,
+        },
+        CheckSpec {
+            prop: "C19",
+            engine: "E3-ident-sim",
+            runs_quick: 10000,
+            runs_thorough: 1000000,
+            run: e3::run_c19,
+            rule: "one run = one fresh OS thread with seeded HashMap keys / Var ids (so the iteration order of the caller's parameter map, which is the Jacobian column packing, is drawn per run); a consistent, diagonally dominant sparse linear system with 1-40 parameters, a drawn subset fixed, drawn equation/term order, solved by the real fidget_solver::solve with VM and JIT functions; key set, residual (harness f64), fixed-as-constant (a fixed value is moved and the system re-solved), fixed point for exactly satisfied systems, backend agreement. distinct_nontrivial = distinct (column order, free count) signatures among runs with >= 2 free parameters",
+            assumptions: &[
+                "well-conditioned by construction: free diagonal in [1,2], at most 3 off-diagonal entries of magnitude <= 0.2 per row, plus up to 3 consistent extra rows",
+                "residual bound 1e-3*(1+max|b|); the unchanged solver reaches ~5e-7",
+                "at least one free parameter (all-fixed input panics in the solver and is outside the property's 1..=40 unknowns)",
             ],
             real_components: REAL,
             stub_components: STUB,
